@@ -18,7 +18,7 @@ def _h(pkg):
     return (pkg, [pkg + "/zz_verif_c19_test.go", pkg + "/zz_verif_c19_common_test.go"], "c19_" + pkg.replace("/", "_"))
 
 
-HARNESSES = [_h("crypto/dpop"), _h("vdr/resolver"), _h("vcr/revocation"), _h("network/dag/tree"), _h("zzverif/c19bb"), _h("auth/api/iam"), _h("vdr/didnuts"), _h("network/transport/v2"), _h("vcr/verifier")]
+HARNESSES = [_h("crypto/dpop"), _h("vdr/resolver"), _h("vcr/revocation"), _h("network/dag/tree"), _h("zzverif/c19bb"), _h("auth/api/iam"), _h("vdr/didnuts"), _h("network/transport/v2"), _h("vcr/verifier"), _h("auth/client/iam")]
 
 # entry points whose code is inside a Lean model (everything else is sampled only)
 MODELLED = {
@@ -97,7 +97,7 @@ def run(ctx):
         pkg, files, name = h
         c = ctx.go_test_binary(pkg, files, name)
         return h, c, (None if c else getattr(ctx, "harness_error", ""))
-    with cf.ThreadPoolExecutor(9) as ex:
+    with cf.ThreadPoolExecutor(10) as ex:
         built = list(ex.map(build, HARNESSES))
     bins = []
     for (pkg, files, name), b, err in built:
@@ -119,7 +119,7 @@ def run(ctx):
             e["VERIF_ORBIT"] = "full" if ctx.thorough else "sample"
         rc, log, out = ctx.run_harness(binary, "TestVerifC19", e, outdir=out, timeout=3000)
         return pkg, name, rc, log, out
-    with cf.ThreadPoolExecutor(9) as ex:
+    with cf.ThreadPoolExecutor(10) as ex:
         runs = list(ex.map(runh, bins))
 
     seen_sig = set()
